@@ -198,6 +198,16 @@ def check_get_solution(ctx, rule: str) -> None:
                         elif v != duals[lab] - duals[lab + "_reverse"]:
                             problems.append(f"{what}: the reduced cost labelled {lab} is {v:g}; forward - reverse of {lab} in the solver is {duals[lab] - duals[lab + '_reverse']:g}")
                             break
+                # a Solution is a snapshot: what the solver reports later does not reach into it
+                frozen = (list(fl.values), list(rc.values), list(sp.values))
+                for d_ in (solver.primal_values, solver.reduced_costs, solver.shadow_prices):
+                    for k_ in list(d_):
+                        d_[k_] = -777.0
+                solver.objective.value = -1.0
+                if (list(fl.values), [v for v in rc.values], list(sp.values)) != frozen and not is_int or list(fl.values) != frozen[0]:
+                    problems.append(f"{what}: the values of the returned Solution change when the solver's tables change afterwards (the Solution shares storage with the solver)")
+                if getattr(sol, "objective_value", None) != 42.5:
+                    problems.append(f"{what}: the objective value of the returned Solution follows the solver's later state")
                 if sorted(sp.index) != sorted(want_m) or len(sp.index) != len(want_m):
                     problems.append(f"{what}: the shadow prices are labelled {sp.index}, requested were {want_m}")
                 else:
